@@ -207,6 +207,24 @@ class CommandPipeline:
                 # later specs that never got to run().
                 for s in specs[i:]:
                     s.close()
+                # Earlier stages are already running, but nothing will ever
+                # read what they write.  Close the parent's copies of their
+                # pipes and reap the processes, otherwise every occurrence
+                # leaks file descriptors and leaves the producer running
+                # (``yes | nonexistent``) or as a zombie.
+                for s, p in zip(specs, self.procs):
+                    s.close()
+                    if s.is_proxy:
+                        continue
+                    try:
+                        if p.poll() is None:
+                            p.terminate()
+                        p.wait(timeout=3)
+                    except subprocess.TimeoutExpired:
+                        p.kill()
+                        p.wait()
+                    except Exception:
+                        pass
                 self.proc = None
                 return
             if proc.pid and pipeline_group is None and not spec.is_proxy:
